@@ -7,7 +7,8 @@ From Verif Require Import lib.Wire c03.Int64 c03.Model c03.Spec c03.Proofs_Int64
      c03.Proofs_Sum c03.Proofs_Reach c03.Proofs_Link c03.Proofs_Targets c03.Proofs_Frames c03.Proofs_Frames2
      c03.Proofs_Frames3 c03.Proofs_Kill c03.Proofs_OpsMem c03.Proofs_Done c03.Proofs_OpsDone c03.Proofs_OpsNew
      c03.Proofs_OpsOpen c03.Proofs_Hist c03.Proofs_Mon c03.Proofs_Link2 c03.Proofs_Transfer c03.Proofs_OpsRepar
-     c03.Proofs_SetPeer c03.Proofs_Hist2 c03.Proofs_Mon2 c03.Proofs_Keys c03.Proofs_Refs c03.Proofs_RefInv c03.Proofs_GC.
+     c03.Proofs_SetPeer c03.Proofs_Hist2 c03.Proofs_Mon2 c03.Proofs_Keys c03.Proofs_Refs c03.Proofs_RefInv c03.Proofs_GC
+     c03.Proofs_Prio.
 Import ListNotations.
 Local Open Scope Z_scope.
 
@@ -113,15 +114,39 @@ Proof.
   rewrite anextT_gc. cbn [step astep]. exists [], []. split; [reflexivity | intros cand []].
 Qed.
 
-Theorem full_from : forall c ops st a m i,
+(* the extra checks proved so far: the priority threshold *)
+Definition ck_proved (ck : checks) : Prop := ck_just ck = false /\ ck_cap ck = false.
+
+Lemma prio_step : forall c st a m t sz prio, cfg_ok c -> InvG c st a -> (forall x, ostat m x = use_of (scopes st) x) ->
+  wf_opF c st a (OReserve t sz prio) ->
+  let '(st', cls) := step c st (OReserve t sz prio) in
+  cls = 0 -> forall m', (forall x, ostat m' x = use_of (scopes st') x) ->
+  forall y, In y (areach (anextT c st a (OReserve t sz prio)) t) ->
+  l_mem (a_limit c (anextT c st a (OReserve t sz prio)) y) = max_int64 \/
+  mem (ostat m' y) <= prio_threshold (a_limit c (anextT c st a (OReserve t sz prio)) y) prio.
+Proof.
+  intros c st a m t sz prio LO ((I & _) & _) L Wf. cbn [wf_opF wf_op2 wf_op] in Wf. destruct Wf as (Hp & Hsz & V & Hh & Ov).
+  pose proof (reserve_prio c st a t sz prio LO I Hp Hsz V Hh Ov) as P.
+  rewrite (anextT_other c st a (OReserve t sz prio) Logic.I). unfold anext. cbn [step].
+  destruct (reserve_mem c st t sz prio) as [st' cls]. intros C m' L' y Hy. cbn [astep] in *. subst cls. cbn [Z.eqb hd] in *.
+  rewrite add_own_reach in Hy. rewrite add_own_limit, L'. apply (P eq_refl y Hy).
+Qed.
+
+Theorem full_from : forall ck c ops st a m i, ck_proved ck ->
   cfg_ok c -> InvG c st a -> (forall t, ostat m t = use_of (scopes st) t) ->
   forallb op_shape ops = true -> callers_run c a m i (model_trace c st ops) = None ->
-  mon_run_gen false c a m i (model_trace c st ops) = [] /\ wf_histF c st a ops.
+  mon_run_gen ck c a m i (model_trace c st ops) = [] /\ wf_histF c st a ops.
 Proof.
-  intros c ops. induction ops as [|o r IH]; intros st a m i LO IG L Sh Cr; [split; [reflexivity | exact Logic.I]|].
+  intros ck c ops. induction ops as [|o r IH]; intros st a m i (Kj & Kc) LO IG L Sh Cr; [split; [reflexivity | exact Logic.I]|].
   cbn [forallb] in Sh. apply andb_true_iff in Sh. destruct Sh as [Sh1 Sh2].
   cbn [model_trace wf_histF] in *. pose proof (astep_pickedF c st a o LO IG) as Hd.
   pose proof (step_full c st a o LO IG) as Hi.
+  assert (Pr : forall t sz prio, o = OReserve t sz prio -> wf_opF c st a o ->
+            let '(st', cls) := step c st o in
+            cls = 0 -> forall m', (forall x, ostat m' x = use_of (scopes st') x) ->
+            forall y, In y (areach (anextT c st a o) t) ->
+            l_mem (a_limit c (anextT c st a o) y) = max_int64 \/ mem (ostat m' y) <= prio_threshold (a_limit c (anextT c st a o) y) prio).
+  { intros t sz prio -> Wf. apply (prio_step c st a m t sz prio LO IG L Wf). }
   destruct (step c st o) as [st' cls] eqn:Es. cbn [fst] in Hi.
   cbn [callers_run mon_run_gen] in *.
   destruct (caller_ok a o && no_overflow m o) eqn:C; [|discriminate].
@@ -130,16 +155,24 @@ Proof.
   destruct Hd as (pre & post & El & Hm).
   set (x := model_obs st st' o cls) in *. set (m' := apply_delta m (o_delta x)) in *.
   assert (L' : forall t, ostat m' t = use_of (scopes st') t) by (apply obs_follows, L).
-  pose proof (mon_step_accepts_pick c a (anextT c st a o) m m' o x pre post LO) as Ms.
-  assert (Ecls : o_cls x = cls) by reflexivity. rewrite Ecls in Ms.
+  assert (Ecls : o_cls x = cls) by reflexivity.
   pose proof (proj1 (proj1 Hi)) as I'.
-  specialize (Ms El eq_refl (ex_intro _ (scopes st') (conj I' L'))).
   assert (Hp : forall cand, In cand pre -> exists t, In t (map fst m') /\ ostat m' t <> usage_A cand t).
   { intros cand Hc. exists System. split.
     - apply model_obs_keys. apply (I_base _ _ _ I').
     - rewrite L', (I_num _ _ _ I' System). intros E. apply (Hm cand Hc). symmetry. exact E. }
-  specialize (Ms Hp). rewrite Ms in *.
-  destruct (IH st' _ m' (i + 1) LO Hi L' Sh2 Cr) as [M Wh]. split; [exact M | split; [exact Wf | exact Wh]].
+  (* the core monitor (what callers_run threads) and the monitor with the proved checks agree *)
+  pose proof (mon_step_accepts_pick c a (anextT c st a o) m m' o x pre post LO) as Ms0.
+  rewrite Ecls in Ms0. specialize (Ms0 El eq_refl (ex_intro _ (scopes st') (conj I' L')) Hp).
+  pose proof (mon_step_accepts_ck ck c a (anextT c st a o) m m' o x pre post LO) as Ms.
+  rewrite Ecls in Ms. specialize (Ms El eq_refl (ex_intro _ (scopes st') (conj I' L')) Hp).
+  assert (Msk : mon_step_gen ck c a m o x = inl (anextT c st a o, m')).
+  { apply Ms.
+    - intros _ t sz prio Eo C0 y Hy. apply (Pr t sz prio Eo Wf C0 m' L' y Hy).
+    - intros X. congruence.
+    - intros X. congruence. }
+  rewrite Ms0 in Cr. rewrite Msk.
+  destruct (IH st' _ m' (i + 1) (conj Kj Kc) LO Hi L' Sh2 Cr) as [M Wh]. split; [exact M | split; [exact Wf | exact Wh]].
 Qed.
 
 Lemma init_obs : forall c t, ostat [] t = use_of (scopes (init_state c)) t.
@@ -156,15 +189,19 @@ Theorem history_full : forall c ops, disciplined c ops ->
 Proof.
   intros c ops (Wc & Sh & Cr). pose proof (config_wf_ok c Wc) as LO.
   apply (history_full_from c ops _ _ LO (init_invG c LO)).
-  apply (full_from c ops (init_state c) astate0 [] 0 LO (init_invG c LO) (init_obs c) Sh Cr).
+  apply (full_from ck_core c ops (init_state c) astate0 [] 0 (conj eq_refl eq_refl) LO (init_invG c LO) (init_obs c) Sh Cr).
 Qed.
 
-Theorem monitor_accepts_full : forall c ops, disciplined c ops ->
-  mon_run_gen false c astate0 [] 0 (model_trace c (init_state c) ops) = [].
+Theorem monitor_accepts_full : forall ck c ops, ck_proved ck -> disciplined c ops ->
+  mon_run_gen ck c astate0 [] 0 (model_trace c (init_state c) ops) = [].
 Proof.
-  intros c ops (Wc & Sh & Cr). pose proof (config_wf_ok c Wc) as LO.
-  apply (full_from c ops (init_state c) astate0 [] 0 LO (init_invG c LO) (init_obs c) Sh Cr).
+  intros ck c ops K (Wc & Sh & Cr). pose proof (config_wf_ok c Wc) as LO.
+  apply (full_from ck c ops (init_state c) astate0 [] 0 K LO (init_invG c LO) (init_obs c) Sh Cr).
 Qed.
+
+Corollary monitor_accepts_prio : forall c ops, disciplined c ops ->
+  mon_run_gen (mkChecks true false false) c astate0 [] 0 (model_trace c (init_state c) ops) = [].
+Proof. intros c ops. exact (monitor_accepts_full (mkChecks true false false) c ops (conj eq_refl eq_refl)). Qed.
 
 Corollary usage_is_sum_full : forall c ops t, disciplined c ops ->
   use_of (scopes (run c (init_state c) ops)) t = usage_A (run_aT c (init_state c) astate0 ops) t.
